@@ -163,7 +163,7 @@ def run(prop, tier):
                 continue   # quadratic text or pointless beyond the limit
         src = shape_src(s, n)
         wrapped = "local f, e = load(%s)\nif not f then emit('compile-error') return end\nlocal r = table.pack(pcall(f))\nif r[1] then emit('ok', r[2]) else emit('runtime-error') end" % long_lua_string(src)
-        cases.append({"id": len(cases), "src": wrapped, "timeout": 60000, "cpu": 2000000000, "mem": 3000000000})
+        cases.append({"id": len(cases), "src": wrapped, "timeout": 60000 if n <= 100000 else 400000, "cpu": 2000000000, "mem": 3000000000})
         meta.append(l)
         if l.get("div"):
             # a program without a value must end by an ordinary error also when no resource limit is set
